@@ -261,6 +261,15 @@ INFO = {
     "C13-m13": ("C13", "hasCRC32: t <= PSITableIDEITEnd became t <", "an EIT with table_id 0x6f (last schedule variant): the CRC bytes are read as an event"),
     "C16-m13": ("C16", "adaptation field transport_private_data read with NextBytesNoCopy (aliases the packet read buffer)", "a returned packet with non-empty private data and at least one later packet read on the same Demuxer"),
     "C19-m13": ("C19", "parsePacket consults the PacketSkipper only inside the HasPayload branch", "adaptation-only packets selected by the predicate, observed through NextPacket"),
+    # round 10 (the other eight properties with a packet-, PES- or muxer-level subject; same brief as round 9)
+    "C02-m13": ("C02", "isPSIComplete: Len >= Offset became Offset < Len (independent rediscovery of C02-m1)", "a PAT/PMT section ending on the last payload byte of its packet, or followed by exactly one 0xFF"),
+    "C03-m13": ("C03", "newPacketBuffer re-wraps a small bufio.Reader only when its buffer is below 188 bytes instead of below the 193-byte detection window (partial revert of F13)", "auto-detection on a caller's bufio.Reader whose buffer is 188..192 bytes: bufio.ErrBufferFull on every call, ErrNoMorePackets never reached"),
+    "C05-m13": ("C05", "WriteTables: one rollback closure split into per-table snapshots, a PMT failure restores only PMT state", "a WriteTables failing at the PMT step (ErrPCRPIDInvalid) after an earlier emission, followed by a successful one: PAT counter gap"),
+    "C08-m13": ("C08", "auto-detect resync length uses 188 instead of the detected size (independent rediscovery of C08-m1)", "auto-detection on a non-seekable non-bufio reader with 189..192-byte packets"),
+    "C11-m13": ("C11", "ltw_offset parsed with mask 0x3f instead of 0x7f on its first byte", "an adaptation field extension with ltw_flag and ltw_offset >= 0x4000"),
+    "C12-m13": ("C12", "parseESCR masks the first byte's base bits with 0x3 instead of 0x7", "a PES header carrying an ESCR whose base is >= 2^32"),
+    "C14-m13": ("C14", "calcDescriptorVBIDataLength: the list of data_service_ids replaced by the range 1..7 (includes the reserved id 3), writer keeps the list", "a VBI data descriptor with a service of data_service_id 3: descriptor_length and enclosing loop lengths disagree with the bytes written"),
+    "C17-m13": ("C17", "RemoveElementaryStream invalidates the PMT before looking the PID up", "a RemoveElementaryStream of an unknown PID (ErrPIDNotFound) between two table emissions: version_number bumps with unchanged content"),
 }
 REVERTS = {
     "R01": "C12", "R02": "C14", "R03": "C14", "R04": "C18", "R05": "C17", "R06": "C04", "R07": "C11", "R08": "C05", "R09": "C06", "R13": "C08", "R14": "C04",
